@@ -802,6 +802,10 @@ def gen_cases(g: Gen, tier: str) -> list[dict[str, Any]]:
                "15", "2.5e2"):
         for n_ in (-1, -2, -3, "-1", -1.5):
             add("num", "round", a_, (n_,))
+    # digit counts above the bit length of the number / huge ones: 0, and the call returns
+    for a_ in (0, 1, -1, 5, 7, 8, 499, 500, 501, 2 ** 62, -(10 ** 30), 5.5, 4999.9, "7"):
+        for n_ in (-3, -4, -17, -18, -19, -64, -400, -(2 ** 62), -(10 ** 30), str(-(2 ** 62))):
+            add("num", "round", a_, (n_,))
 
     # decimal arithmetic on floats goes through their shortest repr: 0.1 + 0.2 is 0.3
     for xs in ([0.1, 0.2], [0.1, 0.2, 0.7], [1.1, 2.675, -0.3], [1e-07, 0.2, 3], ["0.1", 0.2, 1], [0.1] * 10,
@@ -1491,6 +1495,9 @@ class Laws:
             rk = f("round", a, -k)
             self.expect("round-negative-digits", type(rk) is int and rk % 10 ** k == 0 and abs(rk - a) * 2 <= 10 ** k,
                         "round: -k is not the nearest multiple of 10^k", **rp, k=k, got=rk)
+        for huge in (-(2 ** 62), -(10 ** 30), -(a.bit_length() + 1)):
+            self.expect("round-huge-negative-digits", f("round", a, huge) == 0 and type(f("round", a, huge)) is int,
+                        "round with a digit count above the bit length is not 0", **rp, digits=huge)
         self.expect("string-operands", f("plus", str(a), str(b)) == a + b and f("minus", str(a), b) == a - b,
                     "numeric strings", **rp)
 
